@@ -542,3 +542,11 @@ for _p, _r in (("C20", "R-C20-rows"), ("C09", "R-C09-edgerows")):
     B(_p, NW, "        index = len(self.base.edges)", "        index = len(self.edges)", _r)
     P(_p, NW, "        pre_nodes = pre_nodes[[\"global_comp_index\"]]\n        pre_nodes.columns = [\"pre_global_comp_index\"]", "        pre_nodes = pre_nodes[[\"global_comp_index\"]].rename(\n            columns={\"global_comp_index\": \"pre_global_comp_index\"}\n        )")
 B("C09", CU, "    area = 2 * pi * radius * length", "    area = pi * radius * length", "R-C09-area")
+# a view shows / deletes its own half of the trainables; the two halves are cut with the same, disjoint row masks
+for _p, _r in (("C10", "R-C10-viewtrain"), ("C19", "R-C19-viewtrain")):
+    B(_p, BASE, "            trainables_and_inds = self._filter_trainables(is_viewed=False)", "            trainables_and_inds = self._filter_trainables(is_viewed=True)", _r)
+    B(_p, BASE, "            self.base.num_trainable_params -= self.num_trainable_params", "            self.base.num_trainable_params = self.num_trainable_params", _r)
+    P(_p, BASE, "            self.base.num_trainable_params -= self.num_trainable_params", "            self.base.num_trainable_params = (\n                self.base.num_trainable_params - self.num_trainable_params\n            )")
+    B(_p, BASE, "            partially_in_view = in_view.any(axis=1) & ~completely_in_view", "            partially_in_view = in_view.any(axis=1)", _r)
+    B(_p, BASE, "            índices_set_by_trainables_in_view.append(inds[completely_in_view])", "            índices_set_by_trainables_in_view.append(inds[partially_in_view])", _r)
+    P(_p, BASE, "            partially_in_view = in_view.any(axis=1) & ~completely_in_view", "            partially_in_view = ~completely_in_view & in_view.any(axis=1)")
